@@ -27,6 +27,8 @@ def corpus_strings():
         out.append((b'"a\\' + bytes([e]) + b'b"', el))
         out.append((b'"a' + bytes([e]) + b'b"', r6))
         out.append((b'"a' + bytes([e]) + b'b"', el))
+        out.append((b'"\\101' + bytes([e]) + b'"', el))
+        out.append((b'"' + bytes([e]) + b'\\x41"', el))
     HV = ["0", "41", "7f", "7F", "80", "e9", "ff", "FF", "100", "3bb", "3BB", "7ff", "800", "d7ff", "d800", "D800", "dfff", "e000",
           "fffd", "ffff", "10000", "1f600", "10ffff", "110000", "ffffff", "1000000", "0000041", "00000000000041", ""]
     for h in HV:
@@ -278,6 +280,12 @@ def run_domain(name, fast=True):
             cmd = {"serde": "serdecheck", "printcheck": "printcheck", "alist": "alistcheck"}[name]
             r = RP.run_cmd([cmd], fast=True, timeout=600)
             _CACHE[key] = (r.get("cases", 0), [{"kind": "corpus", "cmd": cmd, "what": b} for b in r.get("bad", [])])
+        elif name == "tokens_datum":
+            # the location-tracking reader on the token corpus (a subset of the option sets: every keyword-flag set x digit mode)
+            opts = [P(k=k, nil=nil, t=0, dg=dg, rk=1) for k in range(8) for nil in (0, 2) for dg in (0, 1)]
+            _CACHE[key] = check_read(corpus_tokens(opts), fast, api="datum")
+        elif name == "lists_datum":
+            _CACHE[key] = check_read(corpus_lists(), fast, api="datum")
         elif name == "toplevel":
             cases = [(t, o) for t, o in corpus_lists()[:600]]
             _CACHE[key] = check_read(cases, fast, api="value")
